@@ -4,6 +4,7 @@ import (
 	"context"
 	"fmt"
 	"io"
+	"os"
 	"strings"
 
 	"mvdan.cc/sh/v3/interp"
@@ -101,6 +102,56 @@ func ZZ_C14_DeferredCall() {
 	}
 	zz.Note(fmt.Sprintf("deferred call ran %q, expected %q (run: %v)", got, want, err))
 	zz.Assert(got == want, "deferred-task-call-passes-the-deferring-tasks-values-and-EXIT_CODE")
+	if zz.Twin() {
+		zz.Assert(false, "twin")
+	}
+	zz.Reach("end")
+}
+
+// ZZ_C02_PassedData: "variables passed in a call are the ones the callee sees", for a value
+// that is data: the output of a dynamic variable of the caller (symbolic text over braces,
+// dots and a letter), passed on as `vars: {V: '{{.DATA}}'}`. The caller renders the call's
+// variables once; the callee must see exactly that text.
+func ZZ_C02_PassedData() {
+	d := zz.Str("output_of_the_dynamic_variable", 4, "{}.a")
+	zz.Assume(d != "")
+	zzRun = func(ctx context.Context, opts *execext.RunCommandOptions) error {
+		if opts.Command == "emit" && opts.Stdout != nil {
+			_, _ = io.WriteString(opts.Stdout, d+"\n")
+		}
+		return nil
+	}
+	zzEnviron = []string{"HOME=/h"}
+	emit := "emit"
+	if zz.Native() {
+		os.Setenv("ZZDATA", d)
+		defer os.Unsetenv("ZZDATA")
+		emit = `printf '%s\n' "$ZZDATA"`
+	}
+	tf := &ast.Taskfile{Vars: ast.NewVars(), Env: ast.NewVars(), Tasks: ast.NewTasks(), Run: "always", Method: "checksum"}
+	callVars := ast.NewVars()
+	callVars.Set("V", ast.Var{Value: "{{.DATA}}"})
+	t := &ast.Task{Task: "t", Location: &ast.Location{Taskfile: "/d/f.yml"}, Vars: ast.NewVars(), Env: ast.NewVars(),
+		Cmds: []*ast.Cmd{{Task: "callee", Vars: callVars}}}
+	t.Vars.Set("DATA", ast.Var{Sh: &emit})
+	callee := &ast.Task{Task: "callee", Location: &ast.Location{Taskfile: "/d/f.yml"}, Vars: ast.NewVars(), Env: ast.NewVars(),
+		Cmds: []*ast.Cmd{{Cmd: "got {{.V}}"}}}
+	tf.Tasks.Set("t", t)
+	tf.Tasks.Set("callee", callee)
+	e := &Executor{Taskfile: tf, Stdout: io.Discard, Stderr: io.Discard}
+	e.Logger = zzQuietLogger()
+	e.Compiler = &Compiler{Dir: "", TaskfileEnv: tf.Env, TaskfileVars: tf.Vars, Logger: e.Logger}
+	ct, err := e.CompiledTask(&Call{Task: "t"})
+	zz.Assert(err == nil && ct != nil && len(ct.Cmds) == 1, "compiles")
+	if err != nil || ct == nil || len(ct.Cmds) != 1 {
+		return
+	}
+	pv, _ := ct.Cmds[0].Vars.Get("V")
+	ps, _ := pv.Value.(string)
+	zz.Assert(ps == d, "call-vars/the-data-is-what-the-caller-passes")
+	sub, err := e.CompiledTask(&Call{Task: "callee", Vars: ct.Cmds[0].Vars, Indirect: true})
+	zz.Note(fmt.Sprintf("passed %q, callee compiled: %v", d, err))
+	zz.Assert(err == nil && sub != nil && len(sub.Cmds) == 1 && sub.Cmds[0].Cmd == "got "+d, "call-vars/seen-by-callee-as-passed")
 	if zz.Twin() {
 		zz.Assert(false, "twin")
 	}
